@@ -21,7 +21,9 @@ def mixed_workload(tier, rng, scale=1):
     cases += sample(rng, gen_enc.gen_c10("quick", rng), 30 * k)
     cases += sample(rng, gen_dec.gen_c05("quick", rng), 60 * k)
     cases += sample(rng, gen_dec.gen_c04("quick", rng), 40 * k)
-    cases += sample(rng, gen_dec.gen_c15("quick", rng), 30 * k)
+    c15 = gen_dec.gen_c15("quick", rng)
+    rare = [c for c in c15 if set(c.tags) & {"bus", "cm", "cm-digits", "lin", "short"}]      # every TECMP message kind is in the workload
+    cases += rare + sample(rng, [c for c in c15 if c not in rare], 30 * k)
     cases += sample(rng, gen_dec.random_histories("quick", rng, 40 * k, with_pending=True), 40 * k)
     cases += sample(rng, gen_misc.gen_c16("quick", rng), 60 * k)
     cases += sample(rng, gen_bld.gen_c13("quick", rng), 12 * k)
@@ -41,11 +43,12 @@ def extra_c19(ctx, cases, violations):
     pairs = [(c.name, c.ops) for c in cases]
     script = core._script(pairs)
     stats = {}
-    for n in ([4] if ctx.tier == "quick" else [4, 16]):
+    for n, mode in ([(4, "split"), (4, "all")] if ctx.tier == "quick" else [(4, "split"), (16, "split"), (8, "all")]):
         env = dict(os.environ)
         env.update(core.TSAN_ENV)
-        r = subprocess.run([os.path.join(hd, "harness"), "--threads", str(n)], input=script.encode(), stdout=subprocess.PIPE, stderr=subprocess.PIPE,
-                           env=env, timeout=1800)
+        # split: the cases are distributed over the threads; all: every thread runs every case (each library path on several threads)
+        r = subprocess.run([os.path.join(hd, "harness"), "--threads", str(n)] + (["--all"] if mode == "all" else []), input=script.encode(),
+                           stdout=subprocess.PIPE, stderr=subprocess.PIPE, env=env, timeout=1800)
         err = r.stderr.decode(errors="replace")
         out = r.stdout.decode().split("\n")
         if out and out[-1] == "":
@@ -62,9 +65,9 @@ def extra_c19(ctx, cases, violations):
                 mism += 1
                 if first is None:
                     first = (c, m, got)
-        stats["tsan_threads_%d" % n] = {"cases": len(cases), "tsan_reports": reports, "exit": r.returncode, "digest_mismatches": mism}
+        stats["tsan_threads_%d_%s" % (n, mode)] = {"cases": len(cases), "tsan_reports": reports, "exit": r.returncode, "digest_mismatches": mism}
         if reports or r.returncode != 0:
-            p = write_replay(ctx.spec.prop, ctx.seed, ctx.tier, 700 + n, "tsan-report", cases[0].ops[:0], [], [],
+            p = write_replay(ctx.spec.prop, ctx.seed, ctx.tier, (700 if mode == "split" else 740) + n, "tsan-report", cases[0].ops[:0], [], [],
                              "ThreadSanitizer reported %d issue(s) with %d threads (exit %d); re-run: .cache/h-*-tsan/harness --threads %d < script\n%s" % (
                                  reports, n, r.returncode, n, err[:3000]))
             with open(p, "a") as f:
@@ -72,7 +75,7 @@ def extra_c19(ctx, cases, violations):
             violations.append((p, ""))
         elif mism:
             c, m, got = first
-            p = write_replay(ctx.spec.prop, ctx.seed, ctx.tier, 720 + n, "thread-digest-mismatch", c.ops, m, got,
+            p = write_replay(ctx.spec.prop, ctx.seed, ctx.tier, (720 if mode == "split" else 760) + n, "thread-digest-mismatch", c.ops, m, got,
                              "%d case(s) produced other output under %d threads than alone" % (mism, n))
             violations.append((p, ""))
     return {"tsan": stats}
